@@ -247,7 +247,10 @@ class Interp:
         l = pl['l']
         k = rv['k']
         if k == 'use':
-            st.env[l] = self.op(st, rv['a'])
+            v = self.op(st, rv['a'])
+            if v[0] == 'o' and self.b.local_ty(l) == 'f64':      # an f64 read out of an opaque place (matrix entry, field): unknown value
+                v = ('f', Lin({st.fresh(hint='ld'): 1.0}), None)
+            st.env[l] = v
         elif k == 'ref':
             st.env[l] = self.op(st, {'k': 'copy', 'pl': rv['pl']})
         elif k == 'cast':
@@ -310,6 +313,7 @@ class Interp:
     def call(self, st, t):
         name, raw = self.b.callee(t)
         args = [self.op(st, a) for a in t['args']]
+        self.__dict__.setdefault('arg_log', {}).setdefault(name, []).append([st.bounds(a[1]) if a[0] == 'f' else None for a in args])
         dest = t['dest']
         if dest['p']:
             return
